@@ -31,3 +31,6 @@ Definition locksvc_instances : list (string * instance) :=
     ("client", mkInst "AClient"
         [("AClient.network", mkBind (TgtGlobal "network") (Some ReliableLink));
          ("AClient.hasLock", mkBind (TgtGlobal "hasLock") None)] []) ].
+
+(* TLA+-only temporaries projected away (none in this spec) *)
+Definition locksvc_scratch : list string := [].
